@@ -888,8 +888,13 @@ def r_option_table(ctx):
             exp.update({"sat.random_seed": K(0), "smt.random_seed": K(0), "smt.arith.random_initial_value": FALSE})
         elif rnd is True:
             exp.update({"smt.arith.random_initial_value": TRUE})
+        # a boolean field whose truth this configuration decided IS that constant (`unsat_core=self.debug` for debug=True)
+        known = {T("debug"): dbg, T("parallel"): par, T("random_values"): rnd}
+        subst = {t_: (TRUE if v_ else FALSE) for t_, v_ in known.items() if v_ is not None}
+        keys = {k: (substitute(v, subst) if isinstance(v, tuple) else v) for k, v in keys.items()}
+        exp = {k: (substitute(v, subst) if isinstance(v, tuple) else v) for k, v in exp.items()}
         bad = {k: (show(keys.get(k)) if isinstance(keys.get(k), tuple) else keys.get(k), show(v)) for k, v in exp.items()
-               if keys.get(k) not in (v, T("parallel") if k == "parallel.enable" else v)}
+               if keys.get(k) != v}
         if bad:
             ctx.violation("R-OPTION-TABLE", where, f"option value(s) {sorted(bad)}",
                           f"on [{describe_config(run)}] (found, expected): {bad}", LOC)
